@@ -33,11 +33,12 @@ class _Nothing(RenderGroup):
     plain = ""
 
 
-def _mk_live(nops, tiers, timeout):
-    @symx("C10-live-history-%dops" % nops, tiers=tiers, timeout=timeout, kind="P", functions=F_L,
+def _mk_live(nops, tiers, timeout, first=None):
+    @symx("C10-live-history-%dops" % nops + ("" if first is None else "-first%d" % first), tiers=tiers, timeout=timeout, kind="P", functions=F_L,
           bounds="Live on a terminal console (20x%d, no auto-refresh thread) x transient x vertical_overflow in {crop, ellipsis, "
                  "visible} x initial frame height 0..3 x every history of %d operations from {print, log-like second print, "
-                 "update(frame of height 0..4 or 8 > screen or a renderable producing no lines at all, refresh=True), update without refresh, refresh} then stop (once or twice) "
+                 "update(frame of height 0..4 or 8 > screen or a renderable producing no lines at all, refresh=True), update without refresh, refresh, "
+                 "a blank line through print() / line(), stop + start again with or without a line printed in between} then stop (once or twice) "
                  "(solver-enumerated, native, output replayed on a screen model): the screen shows exactly the printed lines in "
                  "order followed by the current frame (nothing if transient); no cursor-up ever leaves the visible screen; the "
                  "cursor is visible again; hooks and redirection restored" % (H, nops),
@@ -52,18 +53,36 @@ def _mk_live(nops, tiers, timeout):
         out0, err0 = sys.stdout, sys.stderr
         printed = []
         cur = frame("a", h0)
-        tall = False
+        tall = restarted = False
         live = Live(cur, console=c, auto_refresh=False, transient=transient, vertical_overflow=vo)
         live.start()
         try:
             for i in range(nops):
-                op = int(e.mk("op%d" % i, 0, 4))
+                op = first if (i == 0 and first is not None) else int(e.mk("op%d" % i, 0, 7))
                 if op == 0:
                     c.print("p%d" % i)
                     printed.append("p%d" % i)
                 elif op == 1:
                     c.print("q%d\nr%d" % (i, i))
                     printed += ["q%d" % i, "r%d" % i]
+                elif op == 5:
+                    # a blank line, through print() without arguments or through line()
+                    if i % 2:
+                        c.print()
+                    else:
+                        c.line()
+                    printed.append("")
+                elif op in (6, 7):
+                    # stop, (print a line,) start again: what was on the screen at stop stays, nothing printed since is overwritten
+                    live.stop()
+                    if not transient and not isinstance(cur, _Nothing):
+                        printed += cur.plain.split("\n")
+                    if op == 7:
+                        c.print("m%d" % i)
+                        printed.append("m%d" % i)
+                    live.start()
+                    restarted = True
+                    vo = "visible"      # Rich switches the overflow mode to 'visible' at stop() and keeps it
                 elif op in (2, 3):
                     hh = [0, 1, 2, 4, 8, -1][int(e.mk("h%d" % (i + 1), 0, 5))]
                     cur = frame("f%d_" % i, hh) if hh >= 0 else _Nothing()
@@ -96,12 +115,16 @@ def _mk_live(nops, tiers, timeout):
             want += [l for l in cur.plain.split("\n")] if cur.plain else []
         while want and not want[-1]:
             want.pop()
+        if restarted:
+            # a stopped frame without lines leaves one blank row behind (stop() always ends the line): blank rows are not compared
+            return [l for l in scr.lines() if l] == [w for w in want if w]
         return scr.lines() == want
     return h
 
 
 _mk_live(2, ("quick", "thorough"), 900)
-_mk_live(3, ("thorough",), 3400)
+for _f in range(8):
+    _mk_live(3, ("thorough",), 3400, first=_f)
 
 
 class Boom(Exception):
@@ -186,7 +209,8 @@ def _mk_progress(nops, tiers, timeout):
                            "rich/progress.py:Progress.process_renderables", "rich/progress.py:Progress.add_task",
                            "rich/progress.py:Progress.remove_task", "rich/progress.py:Progress.update"],
           bounds="Progress (one text column, no refresh thread) on a 30x8 terminal x transient x every history of %d operations from "
-                 "{print, add_task, hide the newest visible task, show it again, remove the oldest task, advance, refresh} then stop (once or twice) "
+                 "{print, blank print(), add_task, hide the newest visible task, show it again, remove the oldest task, advance, refresh, "
+                 "stop + print + start again} then stop (once or twice) "
                  "(solver-enumerated, native, replayed on the screen model): printed lines intact and in order, followed by one line "
                  "per visible task (nothing if transient); no cursor-up leaves the screen; cursor visible again" % nops,
           outside="refresh threads; more than %d operations; more tasks than fit the screen" % nops)
@@ -199,14 +223,27 @@ def _mk_progress(nops, tiers, timeout):
         printed = []
         p = Progress(TextColumn("{task.description}"), console=c, auto_refresh=False, transient=transient)
         tasks = []          # (task id, description, visible)
+        restarted = False
         p.start()
         try:
             tasks.append([p.add_task("t0"), "t0", True])
             for i in range(nops):
-                op = int(e.mk("op%d" % i, 0, 6))
+                op = int(e.mk("op%d" % i, 0, 8))
                 if op == 0:
                     c.print("p%d" % i)
                     printed.append("p%d" % i)
+                elif op == 7:
+                    c.print()
+                    printed.append("")
+                elif op == 8:
+                    # stop, print a line, start again: the rows shown at stop stay, the line printed since is not overwritten
+                    p.stop()
+                    if not transient:
+                        printed += [t[1] for t in tasks if t[2]]
+                    c.print("m%d" % i)
+                    printed.append("m%d" % i)
+                    p.start()
+                    restarted = True
                 elif op == 1:
                     tasks.append([p.add_task("t%d" % (i + 1)), "t%d" % (i + 1), True])
                 elif op == 2:
@@ -239,6 +276,11 @@ def _mk_progress(nops, tiers, timeout):
         if not ok or not scr.cursor_visible or scr.hit_top:
             return False
         want = list(printed) + ([] if transient else [t[1] for t in tasks if t[2]])
+        while want and not want[-1]:
+            want.pop()      # the screen model reports no trailing blank rows
+        if restarted:
+            # a stopped frame without rows leaves one blank row behind: blank rows are not compared in histories with a restart
+            return [l for l in scr.lines() if l] == [w for w in want if w]
         return scr.lines() == want
     return h
 
